@@ -260,12 +260,12 @@ func (d *Data) FromProto(other *pb.Data) error {
 		return errors.New("data is nil")
 	}
 	if other.Metadata != nil {
-		if d.Metadata == nil {
-			d.Metadata = &Metadata{}
-		}
-		if err := d.Metadata.FromProto(other.Metadata); err != nil {
+		// always a new Metadata: a copy of an earlier result of this receiver shares the old one
+		md := &Metadata{}
+		if err := md.FromProto(other.Metadata); err != nil {
 			return err
 		}
+		d.Metadata = md
 	} else {
 		d.Metadata = nil
 	}
